@@ -59,6 +59,7 @@ type sched struct {
 	panics   []string
 	watchdog bool
 	wdLimit  time.Duration
+	re       *process.RuntimeEnvironment // the run this scheduler drives; hooks of other runs pass through
 	last     *task
 	running  *task // the task released alone (spawns only happen in such segments)
 }
@@ -83,8 +84,10 @@ func (s *sched) find(p *process.Process) *task {
 //go:norace
 func (hooks) Spawn(p *process.Process, re *process.RuntimeEnvironment, run func()) {
 	s := cur
-	if s == nil || s.free != 0 || s.n >= maxTasks {
-		// outside the serial scheduler (free runs, stragglers, overflow): an interpreter panic - the
+	if s == nil || s.free != 0 || s.re != re || s.n >= maxTasks {
+		// outside the serial scheduler; s.re != re: a straggler of an EARLIER case (a free run's
+		// leftovers are still finishing their last step when the next case starts) must never
+		// become a task of the current one (free runs, stragglers, overflow): an interpreter panic - the
 		// non-polarized mode's known defect F16 produces them - must not take the racer down
 		go func() {
 			defer func() {
@@ -380,6 +383,8 @@ var phase [6]time.Duration
 
 var freePanics int32
 
+var progress int64 // cases started (debugging aid, see VERIF_RACER_TRACE)
+
 func runCase(c *Case) caseResult {
 	t0 := time.Now()
 	defer func() { phase[5] += time.Since(t0) }()
@@ -401,6 +406,7 @@ func runCase(c *Case) caseResult {
 	}
 	setCur(s)
 	re, _, cancel := process.NewRuntimeEnvironment()
+	s.re = re
 	re.GlobalEnvironment = env
 	re.Typechecked = true
 	re.Color = false
@@ -718,6 +724,14 @@ func worker() {
 	for time.Since(start) < budget && len(o.Violations) < 2 && len(o.Trouble) == 0 {
 		rec := &choice.Recorder{In: choice.Rand{R: rng}}
 		c := drawCase(rec)
+		atomic.AddInt64(&progress, 1)
+		if os.Getenv("VERIF_RACER_TRACE") != "" {
+			fmt.Fprintf(out, "TRACE case mode=%d free=%v verbose=%d monitor=%v len=%d\n", c.Mode, c.Free, c.Verbose, c.Monitor, len(c.Text))
+			if f := os.Getenv("VERIF_RACER_TRACE"); f != "1" {
+				jb, _ := json.Marshal(&replayFile{Property: "C13", Engine: "racer", Input: c})
+				os.WriteFile(f, jb, 0o644)
+			}
+		}
 		res := runCase(c)
 		o.Cases++
 		if !res.Accepted {
@@ -874,6 +888,22 @@ func main() {
 		os.Stdout = dn
 	}
 	process.Sim = hooks{}
+	if os.Getenv("VERIF_RACER_TRACE") != "" {
+		go func() {
+			last, since := int64(-1), time.Now()
+			for {
+				time.Sleep(time.Second)
+				if n := atomic.LoadInt64(&progress); n != last {
+					last, since = n, time.Now()
+				} else if time.Since(since) > 25*time.Second {
+					buf := make([]byte, 1<<22)
+					buf = buf[:runtime.Stack(buf, true)]
+					fmt.Fprintf(out, "NO PROGRESS for 25 s; goroutines:\n%s\n", buf)
+					os.Exit(3)
+				}
+			}
+		}()
+	}
 	if len(os.Args) >= 3 && os.Args[1] == "single" {
 		single(os.Args[2])
 		return
